@@ -502,7 +502,11 @@ INTERVALS = ["INTERVAL '1' DAY", "INTERVAL '1 day'", "INTERVAL 1 DAY", "INTERVAL
 CONSTS = ["NULL", "TRUE", "FALSE", "null", "true", "False", "UNKNOWN", "DEFAULT", "NOT NULL", "NOT TRUE", "NULL IS NULL", "a IS UNKNOWN"]
 ARRAYS = ["ARRAY[1, 2, 3]", "ARRAY[]", "ARRAY['a', 'b']", "[1, 2]", "[]", "ARRAY(1, 2)", "ARRAY[ARRAY[1], ARRAY[2]]", "(1, 2)", "ROW(1, 2)", "STRUCT(1 AS a)",
           "STRUCT(1, 'a')", "{'a': 1}", "MAP(ARRAY['a'], ARRAY[1])", "MAP('a', 1)", "ARRAY[1, 2][1]", "ARRAY(SELECT a FROM t)", "ARRAY<INT>[1, 2]",
-          "[1, 2][0]", "x[1][2]", "x[1:2]", "x['k']", "x.y.z", "(1)", "((1))", "(a, b) = (1, 2)", "(SELECT 1)", "NAMED_STRUCT('a', 1)"]
+          "[1, 2][0]", "x[1][2]", "x[1:2]", "x['k']", "x.y.z", "(1)", "((1))", "(a, b) = (1, 2)", "(SELECT 1)", "NAMED_STRUCT('a', 1)",
+          # subscripts whose index is an expression of known integer type (the index offset between dialects is applied when reading AND when
+          # writing, and must cancel), negative, computed or nested
+          "x[LENGTH(s)]", "x[CAST(i AS INT)]", "x[CAST(i AS BIGINT) + 1]", "x[LENGTH(s) - 1]", "x[i + 1]", "x[-1]", "x[1 + 1]", "x[y[1]]", "x[ARRAY_LENGTH(x)]",
+          "x[COUNT(*)]", "x[CASE WHEN a THEN 1 ELSE 2 END]", "x[1 + LENGTH(s) + 1]", "x[2 * CAST(i AS INT)]"]
 TYPES = ["INT", "INTEGER", "BIGINT", "SMALLINT", "TINYINT", "FLOAT", "DOUBLE", "DOUBLE PRECISION", "REAL", "DECIMAL", "DECIMAL(10, 2)", "DECIMAL(10)",
          "NUMERIC(10)", "NUMERIC", "NUMBER", "NUMBER(10, 2)", "BOOLEAN", "BOOL", "VARCHAR", "VARCHAR(10)", "CHAR", "CHAR(1)", "TEXT", "STRING", "NVARCHAR(10)",
          "NCHAR(2)", "BINARY", "BINARY(4)", "VARBINARY", "VARBINARY(8)", "BLOB", "BYTEA", "BYTES", "DATE", "TIME", "TIMESTAMP", "TIMESTAMPTZ", "TIMESTAMPLTZ",
